@@ -11,6 +11,18 @@ import (
 func (en *Engine) callArgs(st *State, fr *Frame, c *ssa.CallCommon) (name string, callee *ssa.Function, bindings []Val, args []Val, dynamic bool) {
 	if c.IsInvoke() {
 		recv := en.eval(st, fr, c.Value)
+		// devirtualise: the interface value was made on this path from a value of known concrete type
+		if mi, ok := recv.(*MakeIfaceV); ok && mi.X != nil && mi.X.Type() != nil {
+			if sel := en.P.SSA.MethodSets.MethodSet(mi.X.Type()).Lookup(c.Method.Pkg(), c.Method.Name()); sel == nil {
+				// the conversion to the named type that carries the method was transparent: stay symbolic
+			} else if m := en.P.SSA.MethodValue(sel); m != nil {
+				args = append(args, mi.X)
+				for _, a := range c.Args {
+					args = append(args, en.eval(st, fr, a))
+				}
+				return m.String(), m, nil, args, false
+			}
+		}
 		args = append(args, recv)
 		for _, a := range c.Args {
 			args = append(args, en.eval(st, fr, a))
@@ -73,6 +85,12 @@ func (en *Engine) doCall(st *State, fr *Frame, x *ssa.Call) ([]*State, bool, err
 	}
 	if c.IsInvoke() {
 		st.addEvent(&Event{Kind: EvDeref, Instr: x, X: args[0], Callee: "invoke"})
+	}
+	if callee != nil && callee.Blocks != nil && stdInlined(callee) && !en.inStack(st, callee) && len(st.frames) < 12 && en.Inline != nil {
+		// small, pure standard-library helpers over slices are simulated like module code: their loops are the
+		// loops a maintainer would otherwise have written by hand
+		en.pushFrame(st, fr, x, callee, bindings, args, false, "")
+		return nil, true, nil
 	}
 	if callee != nil && callee.Blocks != nil && en.P.inModule(callee) && !en.inStack(st, callee) &&
 		len(st.frames) < 12 && en.Inline != nil && (isBoundWrapper(callee) || (en.boundInl[callee] && !en.Excluded[callee]) || en.Inline(fr.fn, callee, len(st.frames))) {
@@ -455,7 +473,7 @@ func moduleEffect(p *Prog, fn *ssa.Function, seen map[*ssa.Function]bool) *effec
 						write(c.Args[0])
 					}
 				case *ssa.Function:
-					if p.inModule(v) && v.Blocks != nil {
+					if (p.inModule(v) || stdInlined(v)) && v.Blocks != nil {
 						ce := moduleEffect(p, v, seen)
 						if ce.global {
 							e.global = true
@@ -527,7 +545,7 @@ func moduleTreePure(p *Prog, fn *ssa.Function, seen map[*ssa.Function]bool) bool
 			if strings.HasPrefix(name, "builtin:") {
 				continue
 			}
-			if callee != nil && p.inModule(callee) && callee.Blocks != nil {
+			if callee != nil && (p.inModule(callee) || stdInlined(callee)) && callee.Blocks != nil {
 				if !moduleTreePure(p, callee, seen) {
 					pure = false
 				}
@@ -574,4 +592,15 @@ func boundTarget(p *Prog, fn *ssa.Function) *ssa.Function {
 		return nil
 	}
 	return t
+}
+
+// stdInlined: generic helpers of package slices whose bodies are plain loops without side effects.
+func stdInlined(f *ssa.Function) bool {
+	s := f.String()
+	for _, p := range []string{"slices.Contains[", "slices.ContainsFunc[", "slices.Index[", "slices.IndexFunc["} {
+		if strings.HasPrefix(s, p) {
+			return true
+		}
+	}
+	return false
 }
